@@ -70,7 +70,7 @@ def build_tests(case):
         if case.get('refmask') is not None and shape:      # a reference that went through Dataset.mask()
             dsref = dsref.mask(np.array(case['refmask'], dtype=bool).reshape(shape))
         inner = PvalueStub(dsref, *[Dataset(zero, zero) for _ in parrs],
-                           name='stub', alpha=case['alpha'])
+                           name='stub', alpha=layouts.scalar(case['alpha'], case.get('alpha_type')))
     else:
         dty = case.get('dtypes') or []
         msk = case.get('masks') or []
@@ -78,9 +78,9 @@ def build_tests(case):
                                       lay[k] if k < len(lay) else ('C', 'C'), dty[k] if k < len(dty) else None,
                                       msk[k] if k < len(msk) else None)
                  for k, (v, e) in enumerate(case['datasets'])]
-        inner = TestStudent(*dsets, name='student', alpha=case['alpha'], ndf=case['ndf'])
-    tbonf = TestBonferroni(name='bonf', test=inner, alpha=case['alpha'])
-    tholm = TestHolmBonferroni(name='holm', test=inner, alpha=case['alpha'])
+        inner = TestStudent(*dsets, name='student', alpha=layouts.scalar(case['alpha'], case.get('alpha_type')), ndf=layouts.scalar(case['ndf'], case.get('ndf_type')))
+    tbonf = TestBonferroni(name='bonf', test=inner, alpha=layouts.scalar(case['alpha'], case.get('alpha_type')))
+    tholm = TestHolmBonferroni(name='holm', test=inner, alpha=layouts.scalar(case['alpha'], case.get('alpha_type')))
     return inner, tbonf, tholm
 
 
@@ -365,8 +365,9 @@ def gen_student(rng, m, shape, alpha):
         who = rng.choice(['ref', 'cmp', 'both'])
         case_extra['masks'] = [pattern() if (who == 'both' or (k == 0) == (who == 'ref')) else None
                                for k in range(len(sets))]
-    return {'kind': 'student', 'alpha': alpha, 'shape': shape, 'ndf': rng.choice([None, 1, 2, 10, 1000, 10 ** 6]),
-            **case_extra,
+    ndf = rng.choice([None, 1, 2, 3, 10, 1000, 10 ** 6])
+    return {'kind': 'student', 'alpha': alpha, 'shape': shape, 'ndf': ndf,
+            'ndf_type': layouts.pick_ndf_type(rng, ndf), **case_extra,
             'layouts': ([[layouts.pick(rng, shape), layouts.pick(rng, shape)] for _ in sets] if rng.random() < 0.6
                         else [[k, k] for k in [layouts.pick(rng, shape, plain=0.0)] for _ in sets]),
             'datasets': [[[bits(x) for x in v], [bits(x) for x in e]] for v, e in sets]}
@@ -518,7 +519,7 @@ def gen_cases(ctx):
     extra = dtype_cases(rng, quick)
     ctx.count('non_float64_pvalue_cases', len(extra))
     cases += extra
-    nrand = 300 if quick else 9000
+    nrand = 240 if quick else 9000
     mmax = 40 if quick else 120
     for _ in range(nrand):
         m = rng.choice([1, 2, 3, 4, 5, 6, 8]) if rng.random() < 0.5 else rng.randint(1, mmax)
@@ -538,6 +539,8 @@ def gen_cases(ctx):
         if rng.random() < 0.06:                                     # zeros and ones with an integer / bool dtype
             case['pvals'] = [[bits(float(rng.random() < 0.5)) for _ in range(m)] for _ in parrs]
             case['pdtypes'] = [rng.choice(INT_P_DTYPES) for _ in parrs]
+        if rng.random() < 0.2:                                      # alpha as a NumPy number (same value)
+            case['alpha_type'] = rng.choice(['float64', 'array0'])
         if shape and rng.random() < 0.12:                           # masked reference dataset
             r = rng.random()
             case['refmask'] = [0] * m if r < 0.2 else [1] * m if r < 0.3 else [int(rng.random() < 0.3) for _ in range(m)]
@@ -564,6 +567,10 @@ def coq_case(case, obs):
 def classify(ctx, case, obs):
     '''input distribution + non-triviality'''
     ctx.count('kind_' + case['kind'])
+    if case.get('alpha_type'):
+        ctx.count('alpha_type_' + case['alpha_type'])
+    if case.get('ndf_type'):
+        ctx.count('ndf_type_' + case['ndf_type'])
     for dt in case.get('pdtypes') or []:
         ctx.count('pvalue_dtype_' + dt)
     if case.get('masks') or case.get('refmask') is not None:
